@@ -1,2 +1,2 @@
 -- Root of the `SteelVerif` library: every model, lemma and property file.
-import SteelVerif.C05.Model
+import SteelVerif.C05.Props
